@@ -223,6 +223,18 @@ Definition orbits_from_perms (perms : list (list N)) : list (list N) :=
       filter (fun o => negb (Nat.eqb (length o) 0)) (snd s)
   end.
 
+(** * _maps_from_perms: {ref[i]: p[i] for i in range(n)} for every permutation of the reference's length; a dict: a later
+      position overwrites an earlier one with the same key (the duplicated prefix) *)
+Fixpoint dict_set (k v : N) (m : list (N * N)) : list (N * N) :=
+  match m with
+  | [] => [(k, v)]
+  | (k', v') :: r => if N.eqb k' k then (k', v) :: r else (k', v') :: dict_set k v r
+  end.
+Definition map_of (ref p : list N) : list (N * N) :=
+  fold_left (fun m kv => dict_set (fst kv) (snd kv) m) (combine ref p) [].
+Definition maps_from_perms (ref : list N) (perms : list (list N)) : list (list (N * N)) :=
+  map (map_of ref) (filter (fun p => Nat.eqb (length p) (length ref)) perms).
+
 (** * CRNAutomorphism: self-isomorphisms preserving kind, arcs (both directions, loops) and the keyed edge
       attributes; enumerated by extending a partial map node by node (reference enumerator for the VF2 oracle) *)
 Definition eattr_eqb (a b : eattr) : bool := Z.eqb (fst a) (fst b) && Z.eqb (snd a) (snd b).
@@ -300,7 +312,8 @@ Definition run_net (bip st : bool) (n : net) : tok :=
           tset (tset tN) (orbits_from_perms (snd res));
           tset node_tok (vnodes cg); tset arc_tok (varcs cg);
           tnat (length A); tset (tset tN) (uf_orbits (node_ids g) A);
-          tbool (wfb g && kinds_okb g && arcs_okb g) ]
+          tbool (wfb g && kinds_okb g && arcs_okb g);
+          tlist (tset (tpair tN tN)) (maps_from_perms perm (snd res)) ]
   end.
 
 Definition run_case (bip st : bool) (nets : list net) : tok := tlist (run_net bip st) nets.
